@@ -458,6 +458,11 @@ func runCase(script []string) (res result) {
 			}
 			res.stats["op.quiesce"]++
 			emit("quiesce", out)
+			// Trace-level observation at a quiescent point: every trigger taken by the sender (S1) ended in
+			// exactly one hand-over attempt (S2b), delivered or counted as delayed.
+			emit(fmt.Sprintf("counters sent=%d delayed=%d got=%d",
+				int(counter(r.reg, "prometheus_sd_updates_total")),
+				int(counter(r.reg, "prometheus_sd_updates_delayed_total")), r.recvs), "-")
 		default:
 			emit(line, "unparsable")
 		}
@@ -610,6 +615,9 @@ func genCase(rng *h.Rng) []string {
 func stripObs(op string) string {
 	if strings.HasPrefix(op, "recv") {
 		return "recv"
+	}
+	if strings.HasPrefix(op, "counters") {
+		return "" // regenerated after every quiesce
 	}
 	return op
 }
